@@ -42,6 +42,7 @@ type batchEnv struct {
 	ids  *world.IDs
 	dids []*world.ClientDID
 	rng  *rand.Rand
+	kp   *world.KeyPool
 }
 
 func newBatchEnv(seed int64, nDID int, maxOps uint) *batchEnv {
@@ -53,7 +54,7 @@ func newBatchEnv(seed int64, nDID int, maxOps uint) *batchEnv {
 	cas := world.NewMapCAS()
 	ver := world.NewVersion("1.0", p, world.VersionOpts{CAS: cas, ParserOpts: []operationparser.Option{operationparser.WithAnchorTimeValidator(expiryTV{})}})
 	kp := world.NewKeyPool(15)
-	e := &batchEnv{p: p, cas: cas, ver: ver, ids: world.NewIDs(), rng: rng}
+	e := &batchEnv{p: p, cas: cas, ver: ver, ids: world.NewIDs(), rng: rng, kp: kp}
 	for i := 0; i < nDID; i++ {
 		e.dids = append(e.dids, world.NewClientDID(kp, i, rng, world.Origins[i%len(world.Origins)]))
 	}
